@@ -759,6 +759,16 @@ def run(c):
 def replay(path):
     r = json.load(open(path))["replay"]
     build_harness()
+    # the extracted validator embeds the schema files of the repository under test: regenerate it
+    ok, out = vlib.translate()
+    if not ok:
+        print("translator refuses the schema files:", out[-500:])
+        return 1
+    vlib.build_rocq(["Run/Dispatch.vo"])
+    ok, out = build_oracle()
+    if not ok:
+        print("oracle build failed:", out[-500:])
+        return 1
     if "document" in r:
         acc, out, kind = go_run([r["document"]])[0]
         print("implementation:", "accepted" if acc else "rejected (%s)" % kind)
